@@ -104,3 +104,14 @@ Proof.
   - repeat constructor.
   - vm_compute. repeat split; reflexivity.
 Qed.
+
+(** Link between the theorems above and the correspondence check: on every well-formed case
+    (fills of one instrument with price > 0, quantity > 0, fee >= 0), if the implementation's
+    observed positions and closed records agree with the model ([corr_b], within the stated
+    Decimal tolerances) then the property oracle [prop_b] accepts them - the oracle is no stricter
+    than the model. A sum of k observed amounts is compared with tolerance (k+1) x t. *)
+From BV Require Proofs.CorrC02 Corr.C02.
+Theorem C02_oracle_sound : forall c,
+  Corr.C02.wf_case c = true -> Corr.C02.corr_b c = true -> Corr.C02.prop_b c = true.
+Proof. exact Proofs.CorrC02.oracle_sound. Qed.
+Print Assumptions C02_oracle_sound.
